@@ -43,6 +43,10 @@ def run(ctx, rep):
             # sum and can agree): silent divergence
             rep.ob("R5b-transfer-restarts-clean", o["key"].split(" | ", 2)[2], o["ok"], o["detail"], o["at"])
     rep.floor("R5-duplicate-part-refused", n, 1, "parts.insert in DeltaReceiver::snap")
+    # the sender's delta carries every item of the new snapshot (shared with C09 R4): a dropped zero-valued new item does not
+    # change the crc, so the receiver accepts the incomplete snapshot
+    from .C09 import updates_append_only
+    updates_append_only(ctx.prog, rep, "R7-delta-carries-every-item")
 
 
 def _stores_to(body, ir, field):
